@@ -28,6 +28,8 @@ import tlexport.main as tmain  # noqa: E402  (preloaded once; children are forke
 
 assert os.path.realpath(tmain.__file__).startswith(os.path.realpath(REPO) + os.sep), tmain.__file__
 
+CHILD_AT_EXIT = []   # callables run in the forked child just before it exits (monitors flush their event logs here)
+
 SHM = "/dev/shm" if os.path.isdir("/dev/shm") and os.access("/dev/shm", os.W_OK) else None
 
 
@@ -102,6 +104,11 @@ def run_tlexport(files, argv, child_setup=None, cpu=60, wall=900, cwd=None, outn
                 except BaseException:
                     traceback.print_exc()
                     code = 99
+                for fn in CHILD_AT_EXIT:
+                    try:
+                        fn()
+                    except Exception:
+                        pass
                 sys.stdout.flush()
                 sys.stderr.flush()
             finally:
